@@ -150,11 +150,14 @@ End ZL.
 (* [Q u p th] : handle u is the live unit of work unit th in user pool p *)
 Definition arel := Z -> Z -> Z -> Prop.
 
+(* the log replays, and afterwards every live handle is live for exactly one
+   pool (no same-handle move is pending) and the live handles are those of Q *)
 Definition LogRel (log : list call) (Q : arel) : Prop :=
-  exists f, replay log = Some f /\ forall u p th, f u = Some (p, th) <-> Q u p th.
+  exists f, replay log = Some f /\
+            forall u p th o, f u = Some (p, th, o) <-> (o = None /\ Q u p th).
 
 Lemma LogRel_ext log Q Q' : LogRel log Q -> (forall u p th, Q u p th <-> Q' u p th) -> LogRel log Q'.
-Proof. intros (f & E & H) HQ. exists f. split; auto. intros. rewrite H. apply HQ. Qed.
+Proof. intros (f & E & H) HQ. exists f. split; auto. intros. rewrite H, HQ. tauto. Qed.
 
 Lemma LogRel_nil : LogRel [] (fun _ _ _ => False).
 Proof. eexists. split; [reflexivity|]. cbn. intros. split; [discriminate|tauto]. Qed.
@@ -163,10 +166,14 @@ Lemma LogRel_create_null log Q p th : LogRel log Q -> LogRel (CCreate p th UNIT_
 Proof. intros (f & E & H). exists f. split; auto. cbn. rewrite E. reflexivity. Qed.
 
 Lemma LogRel_none log Q f u : replay log = Some f ->
-  (forall u p th, f u = Some (p, th) <-> Q u p th) -> (forall p th, ~ Q u p th) -> f u = None.
+  (forall u p th o, f u = Some (p, th, o) <-> (o = None /\ Q u p th)) -> (forall p th, ~ Q u p th) -> f u = None.
 Proof.
-  intros E H Hn. destruct (f u) as [[p th]|] eqn:Ef; auto. exfalso. apply (Hn p th). apply H. auto.
+  intros E H Hn. destruct (f u) as [[[p th] o]|] eqn:Ef; auto. exfalso. apply (Hn p th). apply H in Ef. tauto.
 Qed.
+
+Lemma LogRel_live log Q f u p th : replay log = Some f ->
+  (forall u p th o, f u = Some (p, th, o) <-> (o = None /\ Q u p th)) -> Q u p th -> f u = Some (p, th, None).
+Proof. intros E H HQ. apply H. auto. Qed.
 
 Lemma LogRel_create log Q Q' p th cu :
   LogRel log Q -> cu <> UNIT_NULL -> (forall q t, ~ Q cu q t) ->
@@ -174,14 +181,14 @@ Lemma LogRel_create log Q Q' p th cu :
   LogRel (CCreate p th cu :: log) Q'.
 Proof.
   intros (f & E & H) Hcu Hfresh HQ'.
-  exists (lupd f cu (Some (p, th))). split.
+  exists (lupd f cu (Some (p, th, None))). split.
   - cbn. rewrite E. cbn. destruct (Z.eqb_spec cu UNIT_NULL); [contradiction|].
     rewrite (LogRel_none _ _ _ _ E H Hfresh). reflexivity.
-  - intros u q t. rewrite HQ'. unfold lupd. destruct (Z.eqb_spec u cu) as [->|Hne].
+  - intros u q t o. rewrite HQ'. unfold lupd. destruct (Z.eqb_spec u cu) as [->|Hne].
     + split.
       * intros E'; inversion E'; auto.
-      * intros [(_ & -> & ->)|HQ]; auto. exfalso. apply (Hfresh _ _ HQ).
-    + rewrite H. split; auto. intros [[? _]|?]; [contradiction|auto].
+      * intros [-> [(_ & -> & ->)|HQ]]; auto. exfalso. apply (Hfresh _ _ HQ).
+    + rewrite H. split; [tauto|]. intros [? [[? _]|?]]; [contradiction|auto].
 Qed.
 
 Lemma LogRel_free log Q Q' p th u :
@@ -191,8 +198,8 @@ Lemma LogRel_free log Q Q' p th u :
 Proof.
   intros (f & E & H) HQ HQ'.
   exists (lupd f u None). split.
-  - cbn. rewrite E. cbn. apply H in HQ. rewrite HQ, Z.eqb_refl. reflexivity.
-  - intros u' q t. rewrite HQ'. unfold lupd. destruct (Z.eqb_spec u' u) as [->|Hne].
+  - cbn. rewrite E. cbn. rewrite (LogRel_live _ _ _ _ _ _ E H HQ), Z.eqb_refl. reflexivity.
+  - intros u' q t o. rewrite HQ'. unfold lupd. destruct (Z.eqb_spec u' u) as [->|Hne].
     + split; [discriminate|tauto].
     + rewrite H. tauto.
 Qed.
@@ -200,13 +207,13 @@ Qed.
 Lemma LogRel_push log Q p th u : LogRel log Q -> Q u p th -> LogRel (CPush p u :: log) Q.
 Proof.
   intros (f & E & H) HQ. exists f. split; auto. cbn. rewrite E. cbn.
-  apply H in HQ. rewrite HQ, Z.eqb_refl. reflexivity.
+  rewrite (LogRel_live _ _ _ _ _ _ E H HQ), Z.eqb_refl. reflexivity.
 Qed.
 
 Lemma LogRel_pop log Q p th u : LogRel log Q -> Q u p th -> LogRel (CPop p u :: log) Q.
 Proof.
   intros (f & E & H) HQ. exists f. split; auto. cbn. rewrite E. cbn.
-  apply H in HQ. rewrite HQ, Z.eqb_refl. reflexivity.
+  rewrite (LogRel_live _ _ _ _ _ _ E H HQ), Z.eqb_refl. reflexivity.
 Qed.
 
 (* a rejected unit (created, map failed, freed at once) leaves the relation *)
@@ -221,6 +228,44 @@ Proof.
   - intros u' q t. split.
     + intros HQ. split; auto. intros ->. apply (Hfresh _ _ HQ).
     + intros [[[? _]|?] ?]; [contradiction|auto].
+Qed.
+
+(* the same-handle move: work unit th, live with handle u in pool p, is given
+   the same handle by pool q <> p (create_unit of q), then p frees it: u is
+   live in both pools in between, and for q alone afterwards *)
+Lemma LogRel_move_same log Q Q' p q th u :
+  LogRel log Q -> u <> UNIT_NULL -> Q u p th -> p <> q ->
+  (forall u' q' t, Q' u' q' t <-> (u' = u /\ q' = q /\ t = th) \/ (Q u' q' t /\ u' <> u)) ->
+  LogRel (CFree p u :: CCreate q th u :: log) Q'.
+Proof.
+  intros (f & E & H) Hu HQ Hpq HQ'.
+  pose proof (LogRel_live _ _ _ _ _ _ E H HQ) as Ef.
+  exists (lupd (lupd f u (Some (p, th, Some q))) u (Some (q, th, None))). split.
+  - cbn. rewrite E. cbn. destruct (Z.eqb_spec u UNIT_NULL); [contradiction|].
+    rewrite Ef, Z.eqb_refl. destruct (Z.eqb_spec p q); [contradiction|]. cbn.
+    unfold lupd at 1. rewrite !Z.eqb_refl. reflexivity.
+  - intros u' q' t o. rewrite HQ'. unfold lupd. destruct (Z.eqb_spec u' u) as [->|Hne].
+    + split.
+      * intros E'; inversion E'; auto.
+      * intros [-> [(_ & -> & ->)|[_ C]]]; [reflexivity|contradiction].
+    + rewrite H. split; [tauto|]. intros [? [[? _]|[? _]]]; [contradiction|auto].
+Qed.
+
+(* ... and when the map of the new association fails, the new pool frees the
+   handle at once: the old association is all that is left *)
+Lemma LogRel_create_free_same log Q p q th u :
+  LogRel log Q -> u <> UNIT_NULL -> Q u p th -> p <> q ->
+  LogRel (CFree q u :: CCreate q th u :: log) Q.
+Proof.
+  intros (f & E & H) Hu HQ Hpq.
+  pose proof (LogRel_live _ _ _ _ _ _ E H HQ) as Ef.
+  exists (lupd (lupd f u (Some (p, th, Some q))) u (Some (p, th, None))). split.
+  - cbn. rewrite E. cbn. destruct (Z.eqb_spec u UNIT_NULL); [contradiction|].
+    rewrite Ef, Z.eqb_refl. destruct (Z.eqb_spec p q); [contradiction|]. cbn.
+    unfold lupd at 1. rewrite !Z.eqb_refl. destruct (Z.eqb_spec p q); [contradiction|]. reflexivity.
+  - intros u' q' t o. unfold lupd. destruct (Z.eqb_spec u' u) as [->|Hne].
+    + rewrite <- Ef. apply H.
+    + apply H.
 Qed.
 
 (* ------------------------------------------------------------------ *)
@@ -321,23 +366,37 @@ Proof.
   apply builtin_unit_inj in Hx; auto.
 Qed.
 
-Lemma unit_live_false s u :
-  unit_live s u = false -> forall t x, zfind (a_thr s) t = Some x -> t_unit x <> u.
+Lemma unit_live_other_false s th u :
+  unit_live_other s th u = false ->
+  forall t x, t <> th -> zfind (a_thr s) t = Some x -> t_unit x <> u.
 Proof.
-  unfold unit_live. intros H t x E Eu. apply zfind_some_in in E.
-  assert (existsb (fun e : Z * thr => t_unit (snd e) =? u) (a_thr s) = true).
-  { apply existsb_exists. exists (t, x). split; auto. cbn. apply Z.eqb_eq. auto. }
+  unfold unit_live_other. intros H t x Hne E Eu. apply zfind_some_in in E.
+  assert (existsb (fun e : Z * thr => negb (fst e =? th) && (t_unit (snd e) =? u)) (a_thr s) = true).
+  { apply existsb_exists. exists (t, x). split; auto. cbn.
+    destruct (Z.eqb_spec t th); [contradiction|]. cbn. apply Z.eqb_eq. auto. }
   congruence.
 Qed.
 
-Lemma oracle_fresh s o :
-  oracle_ok s o = true ->
+(* what the requirement on create_unit gives: NULL, or a non-NULL even handle
+   that no OTHER work unit has *)
+Lemma oracle_fresh s th o :
+  oracle_ok s th o = true ->
   fst o = UNIT_NULL \/ (fst o <> UNIT_NULL /\ Z.even (fst o) = true /\
-                forall t x, zfind (a_thr s) t = Some x -> t_unit x <> fst o).
+                forall t x, t <> th -> zfind (a_thr s) t = Some x -> t_unit x <> fst o).
 Proof.
   unfold oracle_ok. destruct (Z.eqb_spec (fst o) UNIT_NULL) as [E|Hne]; cbn; auto.
   intros H. apply andb_true_iff in H. destruct H as [He Hl]. right. repeat split; auto.
-  apply unit_live_false. destruct (unit_live s (fst o)); [discriminate|reflexivity].
+  apply unit_live_other_false. destruct (unit_live_other s th (fst o)); [discriminate|reflexivity].
+Qed.
+
+(* ... hence a handle that nobody has when th itself has none (or a built-in one) *)
+Lemma oracle_fresh_all s th cu :
+  Z.even cu = true ->
+  (forall t x, t <> th -> zfind (a_thr s) t = Some x -> t_unit x <> cu) ->
+  (forall x, zfind (a_thr s) th = Some x -> t_unit x <> cu) ->
+  forall t x, zfind (a_thr s) t = Some x -> t_unit x <> cu.
+Proof.
+  intros He Hoth Hown t x E. destruct (Z.eq_dec t th) as [->|Hne]; eauto.
 Qed.
 
 (* ---- the two helper sequences ---- *)
@@ -373,6 +432,29 @@ Proof.
   intros Hrep Hu HR. unfold unmap_and_free.
   destruct (rep_unmap _ _ (fun u' t => R u' t /\ u' <> u) _ _ Hrep Hu HR) as (t' & -> & Hrep'); [tauto|].
   eexists. split; [reflexivity|]. cbn. auto.
+Qed.
+
+(* create_unit hands out the handle cu that th already has (R cu th): map, then
+   unmap of the same key and free by the old pool; or the map fails *)
+Lemma create_and_map_same_spec s p oldpool th cu ok R :
+  rep (a_tbl s) R -> cu <> UNIT_NULL -> R cu th ->
+  exists s1 nu code, create_and_map s p th (cu, ok) = (s1, nu, code) /\ a_thr s1 = a_thr s /\
+   ((nu = Some cu /\ code = ABT_SUCCESS /\ tbl_get (a_tbl s1) cu = Some th /\
+     exists s2, unmap_and_free s1 oldpool cu = Some s2 /\ a_thr s2 = a_thr s /\
+                a_log s2 = CFree oldpool cu :: CCreate p th cu :: a_log s /\
+                rep (a_tbl s2) R)
+    \/ (nu = None /\ code = ABT_ERR_MEM /\ ok = false /\ a_tbl s1 = a_tbl s /\
+        a_log s1 = CFree p cu :: CCreate p th cu :: a_log s)).
+Proof.
+  intros Hrep Hne HR. unfold create_and_map.
+  destruct (Z.eqb_spec cu UNIT_NULL) as [|_]; [contradiction|]. cbn [add_log a_tbl].
+  destruct (tbl_map (a_tbl s) cu th ok) as [t' r] eqn:Em.
+  destruct (rep_remap_same _ _ _ _ _ _ _ Hrep Hne HR Em) as [(-> & Hg & t'' & Eu & Hrep'')|(-> & -> & ->)].
+  - do 3 eexists. split; [reflexivity|]. split; [reflexivity|]. left.
+    split; [reflexivity|]. split; [reflexivity|]. split; [exact Hg|].
+    unfold unmap_and_free. cbn [set_tbl a_tbl]. rewrite Eu.
+    eexists. split; [reflexivity|]. cbn. auto.
+  - do 3 eexists. split; [reflexivity|]. split; [reflexivity|]. right. repeat split; auto.
 Qed.
 
 (* ---- facts about the current unit of a thread ---- *)
@@ -567,6 +649,40 @@ Proof.
     + intros u q t. apply HUA.
 Qed.
 
+(* move with the same handle: th keeps its unit, now for pool p; the old pool
+   has freed it (table back to what it represented) *)
+Lemma Inv_move_same s s2 th x p :
+  Inv s -> zfind (a_thr s) th = Some x -> is_builtin_unit (t_unit x) = false -> bi p = false ->
+  t_pool x <> p ->
+  a_thr s2 = a_thr s ->
+  a_log s2 = CFree (t_pool x) (t_unit x) :: CCreate p th (t_unit x) :: a_log s ->
+  rep (a_tbl s2) (fun u t => exists q, UA (a_thr s) u q t) ->
+  Inv (set_thr s2 th (mkT (t_unit x) p)).
+Proof.
+  intros [HT Htb Hlg] E Hb Hbi Hnp Ethr Elog Hrep.
+  destruct (user_unit_facts _ _ _ HT E Hb) as (Hnzo & Hbo & Hua & Huniq).
+  destruct (ti_ok _ HT _ _ E) as [Hth _].
+  assert (HUA : forall u q t, UA (zset (a_thr s) th (mkT (t_unit x) p)) u q t <->
+                 (u = t_unit x /\ q = p /\ t = th) \/ (UA (a_thr s) u q t /\ u <> t_unit x)).
+  { intros u q t. rewrite UA_zset. cbn. split.
+    - intros [(-> & <- & <- & _)|[Hne H]]; auto.
+      right. split; auto. intros ->. apply Huniq in H. tauto.
+    - intros [(-> & -> & ->)|[H Hne]].
+      + left. repeat split; auto.
+      + right. split; auto. intros ->.
+        destruct H as (x' & E' & Eu & _). rewrite E in E'. inversion E'; subst. auto. }
+  split; cbn; rewrite Ethr.
+  - apply ThrInv_zset; auto.
+    + split; auto. cbn. rewrite Hb. auto.
+    + intros t x' Hne E' Eu. cbn in Eu. apply Hne. eapply (ti_inj _ HT); eauto.
+  - apply (rep_ext _ _ _ Hrep). intros u t. split.
+    + intros [q H]. destruct (Z.eq_dec u (t_unit x)) as [->|Hne].
+      * apply Huniq in H. destruct H as [-> _]. exists p. apply HUA. auto.
+      * exists q. apply HUA. auto.
+    + intros [q H]. apply HUA in H. destruct H as [(-> & _ & ->)|[H _]]; eauto.
+  - rewrite Elog. eapply LogRel_move_same; eauto.
+Qed.
+
 (* noise: a failed attempt only adds balanced entries to the log *)
 Lemma Inv_noise s s1 :
   Inv s -> a_thr s1 = a_thr s -> a_tbl s1 = a_tbl s -> LogRel (a_log s1) (UA (a_thr s)) -> Inv s1.
@@ -586,7 +702,7 @@ Proof. intros _ H t (p & x & E & Eu & _). eapply H; eauto. Qed.
 (* shared part of the three "create a unit for th in user pool p" sites when
    th has no user unit *)
 Lemma gain_step s th p o :
-  Inv s -> thread_ptr_ok th = true -> bi p = false -> oracle_ok s o = true ->
+  Inv s -> thread_ptr_ok th = true -> bi p = false -> oracle_ok s th o = true ->
   (forall x, zfind (a_thr s) th = Some x -> is_builtin_unit (t_unit x) = true) ->
   exists s1 nu code, create_and_map s p th o = (s1, nu, code) /\
     match nu with
@@ -595,7 +711,7 @@ Lemma gain_step s th p o :
     end.
 Proof.
   intros HI Hth Hbi Hor Hold. destruct o as [cu ok].
-  destruct (oracle_fresh _ _ Hor) as [E0|(Hnz & He & Hfresh)]; cbn [fst] in *.
+  destruct (oracle_fresh _ _ _ Hor) as [E0|(Hnz & He & Hoth)]; cbn [fst] in *.
   - subst cu.
     destruct (create_and_map_spec s p th UNIT_NULL ok _ (inv_tbl _ HI) (or_introl eq_refl))
       as (s1 & nu & code & E & Ethr & [H|[H|H]]).
@@ -604,7 +720,11 @@ Proof.
       split; [discriminate|]. split; auto. eapply Inv_noise; eauto.
       rewrite Elog. apply LogRel_create_null. apply (inv_log _ HI).
     + destruct H as (_ & _ & ? & _); congruence.
-  - assert (HfR : forall t, ~ (exists q, UA (a_thr s) cu q t)) by (apply tbl_fresh; auto).
+  - (* th has no user unit: the handle is nobody's *)
+    assert (Hfresh : forall t x, zfind (a_thr s) t = Some x -> t_unit x <> cu).
+    { apply (oracle_fresh_all s th cu He Hoth). intros x Ex Eu.
+      pose proof (Hold _ Ex) as Hb. rewrite Eu, (is_builtin_even _ He) in Hb. discriminate. }
+    assert (HfR : forall t, ~ (exists q, UA (a_thr s) cu q t)) by (apply tbl_fresh; auto).
     destruct (create_and_map_spec s p th cu ok _ (inv_tbl _ HI) (or_intror (conj Hnz HfR)))
       as (s1 & nu & code & E & Ethr & [H|[H|H]]).
     + destruct H as (-> & -> & _ & Elog & Hrep). do 3 eexists. split; [exact E|].
@@ -619,7 +739,7 @@ Qed.
 (* shared part of the two user -> user sites *)
 Lemma swap_step s th x p o :
   Inv s -> zfind (a_thr s) th = Some x -> is_builtin_unit (t_unit x) = false ->
-  bi p = false -> oracle_ok s o = true ->
+  bi p = false -> t_pool x <> p -> oracle_ok s th o = true ->
   exists s1 nu code, create_and_map s p th o = (s1, nu, code) /\
     match nu with
     | Some u => code = ABT_SUCCESS /\
@@ -628,9 +748,9 @@ Lemma swap_step s th x p o :
     | None => code <> ABT_SUCCESS /\ Inv s1 /\ a_thr s1 = a_thr s /\ a_tbl s1 = a_tbl s
     end.
 Proof.
-  intros HI E Hb Hbi Hor. destruct o as [cu ok].
+  intros HI E Hb Hbi Hnp Hor. destruct o as [cu ok].
   destruct (user_unit_facts _ _ _ (inv_thr _ HI) E Hb) as (Hnzo & Hbo & Hua & Huniq).
-  destruct (oracle_fresh _ _ Hor) as [E0|(Hnz & He & Hfresh)]; cbn [fst] in *.
+  destruct (oracle_fresh _ _ _ Hor) as [E0|(Hnz & He & Hoth)]; cbn [fst] in *.
   - subst cu.
     destruct (create_and_map_spec s p th UNIT_NULL ok _ (inv_tbl _ HI) (or_introl eq_refl))
       as (s1 & nu & code & E1 & Ethr & [H|[H|H]]).
@@ -639,21 +759,35 @@ Proof.
       split; [discriminate|]. split; auto. eapply Inv_noise; eauto.
       rewrite Elog. apply LogRel_create_null. apply (inv_log _ HI).
     + destruct H as (_ & _ & ? & _); congruence.
-  - assert (HfR : forall t, ~ (exists q, UA (a_thr s) cu q t)) by (apply tbl_fresh; auto).
-    destruct (create_and_map_spec s p th cu ok _ (inv_tbl _ HI) (or_intror (conj Hnz HfR)))
-      as (s1 & nu & code & E1 & Ethr & [H|[H|H]]).
-    + destruct H as (-> & -> & _ & Elog & Hrep). do 3 eexists. split; [exact E1|].
-      split; auto.
-      destruct (unmap_and_free_spec s1 (t_pool x) (t_unit x) th _ Hrep Hnzo) as (s2 & E2 & Ethr2 & Elog2 & Hrep2).
-      { right. eauto. }
-      exists s2. split; auto. eapply Inv_swap; eauto.
-      * congruence.
-      * rewrite Elog2, Elog. reflexivity.
-    + destruct H as (_ & _ & ? & _); congruence.
-    + destruct H as (-> & -> & _ & _ & Etbl & Elog). do 3 eexists. split; [exact E1|].
-      split; [discriminate|]. split; auto. eapply Inv_noise; eauto.
-      rewrite Elog. apply LogRel_create_free; auto. apply (inv_log _ HI).
-      intros q t (x' & E' & Eu & _). eapply Hfresh; eauto.
+  - destruct (Z.eq_dec cu (t_unit x)) as [->|Hdiff].
+    + (* same-handle move: the new pool hands out the handle th already has *)
+      destruct (create_and_map_same_spec s p (t_pool x) th (t_unit x) ok _ (inv_tbl _ HI) Hnzo
+                  (ex_intro _ (t_pool x) Hua))
+        as (s1 & nu & code & E1 & Ethr & [H|H]).
+      * destruct H as (-> & -> & _ & s2 & E2 & Ethr2 & Elog2 & Hrep2).
+        do 3 eexists. split; [exact E1|]. split; auto.
+        exists s2. split; auto. eapply Inv_move_same; eauto.
+      * destruct H as (-> & -> & _ & Etbl & Elog). do 3 eexists. split; [exact E1|].
+        split; [discriminate|]. split; auto. eapply Inv_noise; eauto.
+        rewrite Elog. eapply LogRel_create_free_same; eauto. apply (inv_log _ HI).
+    + (* a handle that nobody has *)
+      assert (Hfresh : forall t x', zfind (a_thr s) t = Some x' -> t_unit x' <> cu).
+      { apply (oracle_fresh_all s th cu He Hoth). intros x' Ex'. rewrite E in Ex'. inversion Ex'; subst. auto. }
+      assert (HfR : forall t, ~ (exists q, UA (a_thr s) cu q t)) by (apply tbl_fresh; auto).
+      destruct (create_and_map_spec s p th cu ok _ (inv_tbl _ HI) (or_intror (conj Hnz HfR)))
+        as (s1 & nu & code & E1 & Ethr & [H|[H|H]]).
+      * destruct H as (-> & -> & _ & Elog & Hrep). do 3 eexists. split; [exact E1|].
+        split; auto.
+        destruct (unmap_and_free_spec s1 (t_pool x) (t_unit x) th _ Hrep Hnzo) as (s2 & E2 & Ethr2 & Elog2 & Hrep2).
+        { right. eauto. }
+        exists s2. split; auto. eapply Inv_swap; eauto.
+        -- congruence.
+        -- rewrite Elog2, Elog. reflexivity.
+      * destruct H as (_ & _ & ? & _); congruence.
+      * destruct H as (-> & -> & _ & _ & Etbl & Elog). do 3 eexists. split; [exact E1|].
+        split; [discriminate|]. split; auto. eapply Inv_noise; eauto.
+        rewrite Elog. apply LogRel_create_free; auto. apply (inv_log _ HI).
+        intros q t (x' & E' & Eu & _). eapply Hfresh; eauto.
 Qed.
 
 Lemma lose_step s th x oldunused :
@@ -712,7 +846,7 @@ Proof.
       eapply Inv_lose; eauto.
     + destruct (Z.eqb_spec (t_pool x) p) as [Ep|Hnp].
       * do 2 eexists. split; [reflexivity|]. split; auto; try (intros C; exfalso; apply C; reflexivity).
-      * destruct (swap_step s th x p o HI Ef Hb Hbi Hor) as (s1 & nu & code & E & H).
+      * destruct (swap_step s th x p o HI Ef Hb Hbi Hnp Hor) as (s1 & nu & code & E & H).
         rewrite E. destruct nu as [u|].
         -- destruct H as (-> & s2 & -> & HI'). do 2 eexists. split; [reflexivity|]. split; auto;
            try (intros C; exfalso; apply C; reflexivity).
@@ -773,6 +907,74 @@ Proof.
   - destruct Hx as [-> _]. rewrite thread_of_builtin_unit; auto.
   - destruct (user_unit_facts _ _ _ (inv_thr _ HI) Ef Hb) as (Hnzo & Hbo & Hua & Huniq).
     apply (rep_get _ _ _ th (inv_tbl _ HI) Hnzo). eauto.
+Qed.
+
+(* ------------------------------------------------------------------ *)
+(* the same-handle move                                                 *)
+(* ------------------------------------------------------------------ *)
+(* the handle a work unit has is the handle of no other work unit *)
+Lemma own_unit_not_live_other s th x :
+  Inv s -> zfind (a_thr s) th = Some x -> unit_live_other s th (t_unit x) = false.
+Proof.
+  intros HI Ef. unfold unit_live_other.
+  destruct (existsb _ (a_thr s)) eqn:Ee; auto. exfalso.
+  apply existsb_exists in Ee. destruct Ee as ([t x'] & Hin & Hc). cbn in Hc.
+  apply andb_true_iff in Hc. destruct Hc as [Hne Heq].
+  apply Z.eqb_eq in Heq. apply (in_zfind _ _ _ (ti_keys _ (inv_thr _ HI))) in Hin.
+  assert (t = th) by (eapply (ti_inj _ (inv_thr _ HI)); eauto). subst.
+  rewrite Z.eqb_refl in Hne. discriminate.
+Qed.
+
+(* Work unit th of user pool (t_pool x) is moved to another user pool p whose
+   create_unit hands out the handle th already has.  The call respects the
+   contract ([apre]), no assertion fires, and
+   - on success: th keeps its handle, now for pool p; the log gained exactly
+     create_unit by p and free_unit by the old pool; the handle still
+     translates to th; its bucket holds it in exactly one cell;
+   - a failing malloc (possible only when the bucket has no tombstone) leaves
+     table and fields as they were, p having freed the handle at once. *)
+Theorem same_handle_move s th x p ok :
+  Inv s -> zfind (a_thr s) th = Some x -> is_builtin_unit (t_unit x) = false ->
+  bi p = false -> t_pool x <> p ->
+  apre s (ASet th p (t_unit x, ok)) = true /\
+  exists s' c, thread_set_associated_pool bi s th p (t_unit x, ok) = Some (s', c) /\ Inv s' /\
+    ((c = ABT_SUCCESS /\ a_thr s' = zset (a_thr s) th (mkT (t_unit x) p) /\
+      a_log s' = CFree (t_pool x) (t_unit x) :: CCreate p th (t_unit x) :: a_log s /\
+      unit_get_thread s' (t_unit x) = Some th /\
+      key_count (nth_bucket (a_tbl s') (slot (t_unit x))) (t_unit x) = 1%nat)
+     \/ (c = ABT_ERR_MEM /\ ok = false /\ a_thr s' = a_thr s /\ a_tbl s' = a_tbl s /\
+         a_log s' = CFree p (t_unit x) :: CCreate p th (t_unit x) :: a_log s)).
+Proof.
+  intros HI Ef Hb Hbi Hnp.
+  destruct (user_unit_facts _ _ _ (inv_thr _ HI) Ef Hb) as (Hnzo & Hbo & Hua & Huniq).
+  split.
+  - cbn. rewrite Ef. unfold oracle_ok. cbn [fst].
+    rewrite (not_builtin_even _ Hb), (own_unit_not_live_other _ _ _ HI Ef).
+    cbn. rewrite orb_true_r. reflexivity.
+  - unfold thread_set_associated_pool. rewrite Ef, Hb, Hbi. cbn [andb].
+    destruct (Z.eqb_spec (t_pool x) p) as [|_]; [contradiction|].
+    destruct (create_and_map_same_spec s p (t_pool x) th (t_unit x) ok _ (inv_tbl _ HI) Hnzo
+                (ex_intro _ (t_pool x) Hua))
+      as (s1 & nu & code & E1 & Ethr & [H|H]).
+    + destruct H as (-> & -> & _ & s2 & E2 & Ethr2 & Elog2 & Hrep2).
+      rewrite E1, E2.
+      assert (HI' : Inv (set_thr s2 th (mkT (t_unit x) p))) by (eapply Inv_move_same; eauto).
+      do 2 eexists. split; [reflexivity|]. split; [exact HI'|]. left.
+      assert (Ef' : zfind (a_thr (set_thr s2 th (mkT (t_unit x) p))) th = Some (mkT (t_unit x) p))
+        by (cbn; rewrite zfind_zset, Z.eqb_refl; reflexivity).
+      split; [reflexivity|]. split; [cbn; rewrite Ethr2; reflexivity|].
+      split; [exact Elog2|]. split.
+      * apply (get_thread_correct _ _ _ HI' Ef').
+      * destruct (inv_tbl _ HI') as [_ Hbk].
+        pose proof (Hbk (slot (t_unit x)) (slot_lt (t_unit x))) as Hbr.
+        eapply (bucket_rep_key_count _ _ _ _ th Hbr Hnzo).
+        apply (proj2 Hbr); auto. split; auto.
+        exists p, (mkT (t_unit x) p). cbn [t_unit t_pool]. repeat split; auto.
+    + destruct H as (-> & -> & -> & Etbl & Elog). rewrite E1.
+      do 2 eexists. split; [reflexivity|]. split.
+      * eapply Inv_noise; eauto. rewrite Elog.
+        eapply LogRel_create_free_same; eauto. apply (inv_log _ HI).
+      * right. repeat split; auto.
 Qed.
 
 (* one operation: never aborts, keeps the invariant, get returns the thread *)
@@ -912,7 +1114,8 @@ Qed.
 (* the association relation as a function of the state                  *)
 (* ------------------------------------------------------------------ *)
 
-Lemma user_assoc_UA l u p th : ThrInv l -> (user_assoc l u = Some (p, th) <-> UA l u p th).
+Lemma user_assoc_UA l u p th o :
+  ThrInv l -> (user_assoc l u = Some (p, th, o) <-> (o = None /\ UA l u p th)).
 Proof.
   intros [K O I]. unfold user_assoc.
   destruct (find (fun e : Z * thr => (t_unit (snd e) =? u) && negb (is_builtin_unit u)) l)
@@ -921,10 +1124,10 @@ Proof.
     apply andb_true_iff in Hf. destruct Hf as [Hu Hb]. apply Z.eqb_eq in Hu.
     apply negb_true_iff in Hb. apply (in_zfind _ _ _ K) in Hin.
     split.
-    + intros E; inversion E; subst. exists x'. auto.
-    + intros (x & E & Eu & Ep & _). assert (th = th') by (eapply I; eauto; congruence). subst.
+    + intros E; inversion E; subst. split; auto. exists x'. auto.
+    + intros [-> (x & E & Eu & Ep & _)]. assert (th = th') by (eapply I; eauto; congruence). subst.
       rewrite Hin in E. inversion E; subst. reflexivity.
-  - split; [discriminate|]. intros (x & E & Eu & Ep & Hb). exfalso.
+  - split; [discriminate|]. intros [_ (x & E & Eu & Ep & Hb)]. exfalso.
     apply zfind_some_in in E. pose proof (find_none _ _ Ef _ E) as Hf. cbn in Hf.
     rewrite Eu, Z.eqb_refl, Hb in Hf. discriminate.
 Qed.
@@ -933,9 +1136,9 @@ Theorem Inv_log_function s :
   Inv s -> exists f, replay (a_log s) = Some f /\ forall u, f u = user_assoc (a_thr s) u.
 Proof.
   intros [HT _ (f & E & H)]. exists f. split; auto. intros u.
-  destruct (f u) as [[p th]|] eqn:Ef.
+  destruct (f u) as [[[p th] o]|] eqn:Ef.
   - symmetry. apply user_assoc_UA; auto. apply H. auto.
-  - destruct (user_assoc (a_thr s) u) as [[p th]|] eqn:Eu; auto.
+  - destruct (user_assoc (a_thr s) u) as [[[p th] o]|] eqn:Eu; auto.
     apply user_assoc_UA in Eu; auto. apply H in Eu. congruence.
 Qed.
 
